@@ -19,10 +19,14 @@ MACHINES = {
     'PPC64': (21, 64, True, 'ENUM_RELOC_TYPE_PPC64', [True, False]),
     'S390X': (22, 64, True, 'ENUM_RELOC_TYPE_S390X', [False]),
     'LoongArch': (258, 64, True, 'ENUM_RELOC_TYPE_LOONGARCH', [True]),
+    # ILP32 objects of 64-bit machines (x32, LoongArch ILP32): ELFCLASS32 files whose 8-byte relocation types still patch 8 bytes
+    'x64-ILP32': (62, 32, True, 'ENUM_RELOC_TYPE_x64', [True]),
+    'LoongArch-ILP32': (258, 32, True, 'ENUM_RELOC_TYPE_LOONGARCH', [True]),
 }
 TABLE_OF = {'x86': '_RELOCATION_RECIPES_X86', 'x64': '_RELOCATION_RECIPES_X64', 'ARM': '_RELOCATION_RECIPES_ARM',
             'AArch64': '_RELOCATION_RECIPES_AARCH64', 'MIPS-REL': '_RELOCATION_RECIPES_MIPS_REL', 'MIPS-RELA': '_RELOCATION_RECIPES_MIPS_RELA',
-            'PPC64': '_RELOCATION_RECIPES_PPC64', 'S390X': '_RELOCATION_RECIPES_S390X', 'LoongArch': '_RELOCATION_RECIPES_LOONGARCH'}
+            'PPC64': '_RELOCATION_RECIPES_PPC64', 'S390X': '_RELOCATION_RECIPES_S390X', 'LoongArch': '_RELOCATION_RECIPES_LOONGARCH',
+            'x64-ILP32': '_RELOCATION_RECIPES_X64', 'LoongArch-ILP32': '_RELOCATION_RECIPES_LOONGARCH'}
 KNOWN_MIPS_RELA = {'R_MIPS_32', 'R_MIPS_64'}      # recorded known finding: the in-place value is added to the explicit addend
 
 
@@ -41,7 +45,8 @@ def one_case(rng, mach, tname, spec):
     places = rng.sample(range(0, n - 8, 8), rng.choice([1, 2, 3]))
     relocs = []
     for p in places:
-        relocs.append((p, rng.randrange(1, len(symbols)), code, rng.choice([0, 1, -1, 0x100, -0x80000000, rng.randrange(-2 ** 40, 2 ** 40)]) if rela else None))
+        big = rng.randrange(-2 ** 40, 2 ** 40) if cls == 64 else rng.randrange(-2 ** 31, 2 ** 31)        # r_addend is class-sized
+        relocs.append((p, rng.randrange(1, len(symbols)), code, rng.choice([0, 1, -1, 0x100, -0x80000000, big]) if rela else None))
     image = W.write_object(cls, le, em, '.data1', bytes(data), relocs, symbols, rela)
     ef = ELFFile(io.BytesIO(image))
     sec = ef.get_section_by_name('.data1')
@@ -67,6 +72,77 @@ def one_case(rng, mach, tname, spec):
         return '%s %s (%s-endian): byte %d of the relocated section is %#x, the ABI formula gives %#x (relocations %r, symbols %r)' % (
             mach, tname, bo, i, got[i], want[i], relocs, symbols)
     return None
+
+
+def loading_case(rng):
+    """the loading path (ELFFile.get_dwarf_info): an x86-64 relocatable object with debug sections whose names are prefixes of
+    one another (.debug_str / .debug_str_offsets, .debug_line / .debug_line_str, .debug_loc / .debug_loclists), only some of
+    which have a relocation section: with relocation enabled exactly the sections that have one are patched (S + A for
+    R_X86_64_32 / R_X86_64_64), the others and every section with relocation disabled keep their bytes -- whichever of the
+    two settings is asked for first on one file object"""
+    import struct
+    from tasks._img import sections_image
+    from elftools.elf.elffile import ELFFile
+    names = ['.debug_info', '.debug_abbrev', '.debug_str', '.debug_str_offsets', '.debug_line', '.debug_line_str', '.debug_loc', '.debug_loclists']
+    with_rel = {n for n in names if rng.random() < 0.5} | {rng.choice(['.debug_str_offsets', '.debug_line_str', '.debug_loclists'])}
+    with_rel -= {rng.choice(['.debug_str', '.debug_line', '.debug_loc'])}       # a prefix name without relocations of its own
+    symvals = [0, 0x1000, 0x222000, 0x7fff0000]
+    symtab = b''.join(struct.pack('<IBBHQQ', 0, 0, 0, 1 if i else 0, v, 0) for i, v in enumerate(symvals))
+    secs = [dict(name='.symtab', type=2, data=symtab, link=2, info=1, entsize=24, align=8), dict(name='.strtab', type=3, data=b'\x00')]
+    data, want = {}, {}
+    for n in names:
+        d = bytearray(rng.randrange(256) for _ in range(48))
+        data[n] = bytes(d)
+        if n in with_rel:
+            rel = b''
+            for off in rng.sample([0, 8, 16, 24, 32, 40], rng.choice([1, 2])):
+                typ, size = rng.choice([(10, 4), (1, 8)])        # R_X86_64_32, R_X86_64_64
+                sym, add = rng.randrange(1, len(symvals)), rng.choice([0, 1, 0x40, -8])
+                rel += struct.pack('<QQq', off, sym << 32 | typ, add)
+                d[off:off + size] = ((symvals[sym] + add) % (1 << (8 * size))).to_bytes(size, 'little')
+        want[n] = bytes(d)
+        secs.append(dict(name=n, type=1, data=data[n]))
+        if n in with_rel:
+            secs.append(dict(name='.rela' + n, type=4, data=rel, link=1, info=len(secs), entsize=24, align=8, flags=0x40))
+    img, _ = sections_image(64, True, secs, etype=1, machine=62)
+    attr = {n: n[1:] + '_sec' for n in names}
+    for order in ([True, False], [False, True], [True, True]):
+        ef = ELFFile(io.BytesIO(img))
+        for flag in order:
+            dw = ef.get_dwarf_info(relocate_dwarf_sections=flag)
+            for n in names:
+                got = getattr(dw, attr[n]).stream.getvalue()
+                exp = want[n] if flag else data[n]
+                if got != exp:
+                    i = next(k for k in range(len(got)) if k >= len(exp) or got[k] != exp[k])
+                    return ('get_dwarf_info(relocate_dwarf_sections=%s) (calls on this file object: %r): byte %d of %s is %#x, expected %#x (%s)' % (
+                        flag, order, i, n, got[i], exp[i] if i < len(exp) else -1,
+                        'patched by its own relocation section' if flag and n in with_rel else 'this section has no relocations to apply'),
+                        'sections with relocations: %r' % sorted(with_rel), img.hex())
+    return None
+
+
+@task('c08-loading-differential', ['C08'], kind='bounded')
+def loading_diff(tier, seed):
+    rng = random.Random(seed * 5 + 88)
+    n = 25 if tier == 'quick' else 1500
+    bad = None
+    for _ in range(n):
+        try:
+            r = loading_case(rng)
+        except Exception as e:
+            import traceback
+            r = ('raised %r (%s)' % (e, traceback.format_exc().splitlines()[-3].strip()), '', '')
+        if r:
+            bad = dict(confirmed=True, how='ELFFile.get_dwarf_info on a relocatable object written from the specification', input=r[2][:3000],
+                       configuration=r[1][:600], observed=r[0][:700], expected='relocated fields hold S + A, every other byte is unchanged')
+            break
+    obs = [dict(name='bounded:elf/elffile.py+relocation.py:debug sections loaded with and without relocation', kind='bounded',
+                verdict='refuted' if bad else 'proved', backend='ground-eval(seeded differential, %d objects)' % n, time=0.0, bounded=True,
+                detail=bad and bad['observed'], native=bad)]
+    return dict(obligations=obs, assumptions=['BOUNDED: x86-64 objects with eight debug sections of 48 bytes, 1-2 relocations per relocated section'],
+                functions=[dict(function='elftools/elf/elffile.py:ELFFile.get_dwarf_info/_read_dwarf_section; relocation.py:find_relocations_for_section/'
+                                         'apply_section_relocations', kind='bounded differential')], exhaustive=False)
 
 
 @task('c08-apply-differential', ['C08'], kind='bounded')
